@@ -4,6 +4,11 @@ package main
 // The lifecycle properties share a library of runs (lifeRuns) so that a behaviour one run reaches is seen
 // by every oracle that could object to it; each property adds runs aimed at its own clauses.
 
+import (
+	"fmt"
+	"time"
+)
+
 type base struct {
 	Name string
 	Sc   func() *Scenario
@@ -88,6 +93,7 @@ func init() {
 		d, b, m := bump(tier, 7, 4, 3)
 		runs = append(runs, RunSpec{Name: "fees", Sc: scFees(paramSet("0.1", "0.001"), false, d, b, m), Oracles: o})
 		runs = append(runs, RunSpec{Name: "huge-values", Sc: scHuge(paramSet("0.1", "0.001"), d-1, b, 2), Oracles: o})
+		runs = append(runs, slashAfterRefundRun(o, MonFlags{}), priceFractionsRun(o, MonFlags{}, d, b, 2))
 		return runs
 	}})
 	register(&CheckSpec{Prop: "C02", Runs: func(tier string) []RunSpec {
@@ -96,6 +102,7 @@ func init() {
 		d, b, m := bump(tier, 7, 4, 3)
 		runs = append(runs, RunSpec{Name: "fees", Sc: scFees(paramSet("0.5", "0.001"), false, d, b, m), Oracles: o})
 		runs = append(runs, RunSpec{Name: "huge-values", Sc: scHuge(paramSet("0.1", "0.001"), d-1, b, 2), Oracles: o})
+		runs = append(runs, slashAfterRefundRun(o, MonFlags{}), priceFractionsRun(o, MonFlags{}, d, b, 2))
 		if tier == "thorough" {
 			for _, tax := range []string{"0", "0.34", "0.99"} {
 				ps := paramSet(tax, "0.5")
@@ -112,6 +119,20 @@ func init() {
 			{Name: "bind-ops+two-failures", Sc: scBind(paramSet("0.1", "0.001"), bindOpsSmall(), []Template{tSlash2}, []string{"bad", "ok"}, d+1, b+1, 2), Oracles: o, Mon: MonFlags{Dis: true}},
 		}
 		runs = append(runs, runsOf(lifeRuns(tier), o, MonFlags{Dis: true}, "life-main", "life-caplow-flipped")...)
+		// arbitration 1.5 s + complaint 0.5 s: the refundable instant is exactly two blocks after the disabling time
+		frac := defaultParams()
+		frac.Arbitration, frac.Complaint, frac.Name = 1500*time.Millisecond, 500*time.Millisecond, "arbitration1.5s-complaint0.5s"
+		runs = append(runs, RunSpec{Name: "bind-ops-fractional-periods", Sc: scBind(frac, bindOpsSmall(), []Template{tSlash}, []string{"bad"}, d, b, m), Oracles: o, Mon: MonFlags{Dis: true}})
+		// governance raises the minimum deposit above existing deposits: a refund still needs an unavailable binding
+		{
+			g := defaultParams()
+			g.MinDeposit, g.Name = 50, "gov-min-deposit-50"
+			sc := scBind(defaultParams(), nil, []Template{tSlash}, []string{"bad"}, d, b, m)
+			sc.Alpha = lifeAlpha(AlphaOpts{RespKinds: []string{"bad"}, ParamChanges: []ParamSet{g}, BindOps: []Action{actBind("a", "P1", "O1", 10, "p1", 1),
+				actDisable("a", "P1", "O1"), actEnable("a", "P1", "O1", 0), actEnable("a", "P1", "O1", 40), actRefund("a", "P1", "O1"), actUpdate("a", "P1", "O1", 10, "", 0)}})
+			sc.Name = "S-BIND(gov-min-deposit-50)"
+			runs = append(runs, RunSpec{Name: "gov-min-deposit-raised", Sc: sc, Oracles: o, Mon: MonFlags{Dis: true}})
+		}
 		if tier == "thorough" {
 			for _, sl := range []string{"0", "1"} {
 				runs = append(runs, RunSpec{Name: "bind-ops+slash" + sl, Sc: scBind(paramSet("0.5", sl), bindOpsFull(), []Template{tSlash}, []string{"bad"}, d, b, m), Oracles: o, Mon: MonFlags{Dis: true}})
@@ -125,6 +146,10 @@ func init() {
 		runs := []RunSpec{
 			{Name: "bind-ops+slash", Sc: scBind(defaultParams(), bindOpsFull(), []Template{tSlash}, []string{"bad", "ok"}, d, b, m), Oracles: o},
 			{Name: "bind-ops+two-failures", Sc: scBind(paramSet("0.1", "0.001"), bindOpsSmall(), []Template{tSlash2}, []string{"bad", "ok"}, d+1, b+1, 2), Oracles: o},
+			slashAfterRefundRun(o, MonFlags{}),
+			// products with a fraction of one half and above: 15 x 0.1 = 1.5, 19 x 0.1 = 1.9, then 14 x 0.1, 18 x 0.1
+			{Name: "slash-fraction-rounding", Sc: scBind(paramSet("0.1", "0.1"), []Action{actBind("a", "P1", "O1", 15, "p1", 1), actBind("a", "P1", "O1", 19, "p1", 1), actBind("a", "P2", "O2", 25, "p1", 1)},
+				[]Template{tSlash2}, []string{"bad"}, d+1, b+1, 2), Oracles: o},
 			{Name: "slash-zero+min-deposit-raised", Sc: func() *Scenario {
 				g := paramSet("0.1", "0.001")
 				g.MinDeposit, g.Name = 50, "gov-min-deposit-50"
@@ -157,6 +182,13 @@ func init() {
 			{Name: "price-fraction-at-cap", Sc: scPrice(paramSet("0.1", "0.001"), "p3t", "p1", []Template{tCapLow, tOne}, AlphaOpts{RespKinds: []string{"ok"}}, d-1, b, m), Oracles: o},
 			{Name: "mod-thresholds-raise", Sc: scMod(paramSet("0.1", "0.001"), []Template{tMod1}, AlphaOpts{RespKinds: []string{"ok"}, ModUpdates: []CtxUpdate{{Name: "thr2", Threshold: 2}}, BindOps: []Action{actDisable("a", "P2", "O2"), actEnable("a", "P2", "O2", 0)}}, d, b, m), Oracles: o},
 		}
+		runs = append(runs, priceFractionsRun(o, MonFlags{}, d-1, b, m), tightBalanceRun(o, d, b, m))
+		{
+			// governance raises the minimum deposit above the existing deposits: eligibility does not depend on it
+			g := defaultParams()
+			g.MinDeposit, g.Name = 50, "gov-min-deposit-50"
+			runs = append(runs, RunSpec{Name: "gov-min-deposit-raised", Sc: scLife(defaultParams(), []Template{tRep2, tOne}, AlphaOpts{RespKinds: []string{"ok"}, ParamChanges: []ParamSet{g}}, d-1, b, m), Oracles: o})
+		}
 		runs = append(runs, runsOf(lifeRuns(tier), o, MonFlags{})...)
 		return runs
 	}})
@@ -170,6 +202,7 @@ func init() {
 		}
 		runs = append(runs, RunSpec{Name: "two-services-one-provider", Sc: scTwoServices(paramSet("0.1", "0.001"), AlphaOpts{RespKinds: []string{"ok"}, BindOps: []Action{actUpdate("ab", "P1", "O1", 0, "p3vv", 0), actUpdate("a", "P1", "O1", 0, "p1t", 0)}}, d, b, m), Oracles: o, Mon: MonFlags{Vol: true}})
 		runs = append(runs, RunSpec{Name: "huge-values", Sc: scHuge(paramSet("0.1", "0.001"), d-2, b-1, 2), Oracles: o, Mon: MonFlags{Vol: true}})
+		runs = append(runs, priceFractionsRun(o, MonFlags{Vol: true}, d-1, b, m))
 		runs = append(runs, runsOf(lifeRuns(tier), o, MonFlags{Vol: true})...)
 		return runs
 	}, Pure: priceGrid})
@@ -194,6 +227,12 @@ func init() {
 		// contexts when a batch fails): keeper calls made from within end-of-block and response processing
 		runs = append(runs, RunSpec{Name: "mod-reentrant", Sc: scModReentrant(defaultParams(), []Template{tMod1, tMod2, tModPoor},
 			AlphaOpts{RespKinds: []string{"ok", "bad"}, ModOps: []string{"mpause", "mstart"}}, d, b, m), Oracles: []Oracle{oracleC09{}}})
+		runs = append(runs, tightBalanceRun([]Oracle{oracleC09{}}, d, b, m))
+		for _, fl := range []bool{false, true} {
+			sc := scModPauseSiblings(defaultParams(), []Template{tModPoor, tMod1, tMod2}, AlphaOpts{RespKinds: []string{"ok"}, ModOps: []string{"mstart"}}, d-1, b-1, m)
+			sc.FlipIDs = fl
+			runs = append(runs, RunSpec{Name: fmt.Sprintf("mod-pause-siblings-in-callback(flip=%v)", fl), Sc: sc, Oracles: []Oracle{oracleC09{}}})
+		}
 		// the owning module creates two contexts while handling one message (same transaction hash and message index)
 		runs = append(runs, RunSpec{Name: "mod-two-creates-in-one-message", Sc: scMod(defaultParams(), []Template{tMod1, tModDup},
 			AlphaOpts{RespKinds: []string{"ok"}, ModOps: []string{"mpause", "mkill"}}, d-1, b-1, m), Oracles: []Oracle{oracleC09{}}})
@@ -245,7 +284,8 @@ func init() {
 		runs := []RunSpec{{Name: "fees", Sc: scFees(paramSet("0.1", "0.001"), true, d, b, m), Oracles: o},
 			{Name: "fees-after-refund", Sc: scFeesRefund(paramSet("0.1", "0.001"), d-1, b, m-1), Oracles: o},
 			{Name: "fees-provider-is-owner", Sc: scFeesSelf(paramSet("0.1", "0.001"), d-1, b, m), Oracles: o},
-			{Name: "fees-provider-lengths", Sc: scFeesLengths(paramSet("0.1", "0.001"), d-1, b, m), Oracles: o}}
+			{Name: "fees-provider-lengths", Sc: scFeesLengths(paramSet("0.1", "0.001"), d-1, b, m), Oracles: o},
+			{Name: "fees-tax-zero", Sc: scFees(paramSet("0", "0.001"), false, d-1, b, m-1), Oracles: o}}
 		runs = append(runs, runsOf(lifeRuns(tier), o, MonFlags{}, "life-main", "life-control", "mod-main")...)
 		return runs
 	}})
@@ -255,6 +295,9 @@ func init() {
 		runs := []RunSpec{
 			{Name: "bind-ops+slash", Sc: scBind(defaultParams(), bindOpsFull(), []Template{tSlash}, []string{"bad"}, d, b, m), Oracles: o},
 			{Name: "bind-ops+two-failures", Sc: scBind(paramSet("0.1", "0.25"), bindOpsSmall(), []Template{tSlash2}, []string{"bad", "ok"}, d+1, b+1, 2), Oracles: o},
+			// a request made in super mode that is answered with an invalid output is slashed inside the response message
+			{Name: "super-mode-bad-response", Sc: scBind(defaultParams(), []Action{actBind("a", "P1", "O1", 10, "p1", 1), actBind("a", "P1", "O1", 40, "p20", 1), actEnable("a", "P1", "O1", 0)},
+				[]Template{tSlashSuper, tSlash}, []string{"bad"}, d, b, m), Oracles: o},
 		}
 		// one provider serving two services with different prices: each binding's minimum follows its own price
 		two := scBind(paramSet("0.1", "0.1"), []Action{actBind("a", "P1", "O1", 40, "p20", 1), actBind("ab", "P1", "O1", 10, "p1", 1),
@@ -307,6 +350,12 @@ func init() {
 			{Name: "fees-provider-is-owner", Sc: scFeesSelf(paramSet("0.1", "0.001"), 6+d, 3, 3), Oracles: o},
 			{Name: "msvc-reserved", Sc: scMsvc(defaultParams(), 5+d, 3, 3), Oracles: o},
 		}
+		// a module that pauses its other contexts from inside the state callback of one that cannot pay
+		for _, fl := range []bool{false, true} {
+			sc := scModPauseSiblings(defaultParams(), []Template{tModPoor, tMod1, tMod2}, AlphaOpts{RespKinds: []string{"ok"}, ModOps: []string{"mstart"}}, 6+d, 4, 2)
+			sc.FlipIDs = fl
+			runs = append(runs, RunSpec{Name: fmt.Sprintf("mod-pause-siblings-in-callback(flip=%v)", fl), Sc: sc, Oracles: o})
+		}
 		runs = append(runs, runsOf(lifeRuns(tier), o, MonFlags{})...)
 		return runs
 	}})
@@ -319,7 +368,7 @@ func init() {
 		return []RunSpec{
 			{Name: "names", Sc: scNames(defaultParams(), 6+d, 3, 4+d), Oracles: o},
 			{Name: "later-operations", Sc: scLife(defaultParams(), []Template{tOne, tRep2}, AlphaOpts{RespKinds: []string{"ok", "bad"}, CtxOps: []string{"pause", "start", "kill"}, Withdraw: []string{"O1:"},
-				BindOps: []Action{actDisable("a", "P1", "O1"), actEnable("a", "P1", "O1", 0), actUpdate("a", "P2", "O2", 0, "p3vv", 0)}}, 7+d, 4, 2), Oracles: o},
+				BindOps: []Action{actDisable("a", "P1", "O1"), actEnable("a", "P1", "O1", 0), actUpdate("a", "P2", "O2", 0, "p3vv", 0), actUpdate("a", "P1", "O1", 0, "p1tp", 0), actUpdate("a", "P2", "O2", 0, "p1t", 0)}}, 7+d, 4, 2), Oracles: o},
 			{Name: "bind-ops+slash", Sc: scBind(defaultParams(), bindOpsFull(), []Template{tSlash}, []string{"bad"}, 6+d, 4, 3), Oracles: o},
 			{Name: "bind-ops+slash-all", Sc: scBind(paramSet("0.5", "1"), bindOpsSmall(), []Template{tSlash2}, []string{"bad"}, 6+d, 4, 2), Oracles: o},
 			{Name: "slash-after-refund", Sc: scBind(defaultParams(), []Action{actBind("a", "P1", "O1", 10, "p1", 1), actDisable("a", "P1", "O1"), actRefund("a", "P1", "O1")}, []Template{tSlash3}, []string{"bad"}, 8+d, 5, 2), Oracles: o},
@@ -352,7 +401,7 @@ func init() {
 	register(&CheckSpec{Prop: "C18", Runs: func(tier string) []RunSpec {
 		o := []Oracle{oracleC18{}}
 		d, b, m := bump(tier, 8, 5, 2)
-		eo := AlphaOpts{RespKinds: []string{"ok"}, CtxOps: []string{"pause", "start"}, Updates: []CtxUpdate{updCap1, updProvP2},
+		eo := AlphaOpts{RespKinds: []string{"ok"}, CtxOps: []string{"pause", "start"}, Updates: []CtxUpdate{updCap1, updProvP2, updTimeout2},
 			BindOps: []Action{actDisable("a", "P1", "O1"), actEnable("a", "P1", "O1", 0), actUpdate("a", "P1", "O1", 30, "p20", 0)}}
 		runs := []RunSpec{
 			{Name: "life-ids+positions", Sc: scLife(defaultParams(), []Template{tOne, tRep2, tPoor}, eo, d, b, m), Oracles: o},
@@ -375,6 +424,9 @@ func init() {
 			{Name: "fees-self-export-points", Sc: scFeesSelf(paramSet("0.1", "0.001"), 5+d, 3, 3), Oracles: o, Post: genesisPost},
 			{Name: "names-export-points", Sc: scNames(defaultParams(), 5+d, 3, 4), Oracles: o, Post: genesisPost},
 			{Name: "mod-export-points", Sc: scMod(defaultParams(), []Template{tMod1, tModPoor}, AlphaOpts{RespKinds: []string{"ok"}, ModOps: []string{"mpause", "mkill"}}, 6+d, 4, 2), Oracles: o, Post: genesisPost},
+			// deposits slashed to exactly nothing: slash fraction 1, and a slash after the deposit was taken back
+			{Name: "slash-all-export-points", Sc: scBind(paramSet("0.5", "1"), bindOpsSmall(), []Template{tSlash2}, []string{"bad"}, 5+d, 3, 2), Oracles: o, Post: genesisPost},
+			func() RunSpec { r := slashAfterRefundRun(o, MonFlags{}); r.Name, r.Post = "slash-after-refund-export-points", genesisPost; return r }(),
 		}
 	}, Pure: paramGrid})
 	register(&CheckSpec{Prop: "C20", Runs: func(tier string) []RunSpec {
@@ -394,6 +446,7 @@ func init() {
 			RunSpec{Name: "bind-panics", Sc: scBind(defaultParams(), bindOpsFull(), []Template{tSlash2}, []string{"bad"}, 6+d, 4, 3), Oracles: o, DetCheck: true},
 			RunSpec{Name: "names-panics", Sc: scNames(defaultParams(), 6+d, 3, 4), Oracles: o, DetCheck: true},
 			RunSpec{Name: "huge-values", Sc: scHuge(defaultParams(), 6+d, 4, 2), Oracles: o, DetCheck: true},
+			func() RunSpec { r := priceFractionsRun(o, MonFlags{}, 7+d, 4, 2); r.DetCheck = true; return r }(),
 			RunSpec{Name: "genesis-import-orders", Sc: withFunds(scLife(paramSet("0.1", "0.001"), []Template{tRep2, tInf}, AlphaOpts{CtxOps: []string{"pause"}, SetW: []string{"O1:W1", "O2:W1"}}, 4+d, 2, 4), 40, 5),
 				Oracles: o, Post: mapGenesisPost, Conform: -1},
 		)
@@ -428,4 +481,30 @@ func init() {
 			c.Pure = inputGridInv(o)
 		}
 	}
+}
+
+// runs shared by several money / pricing properties (not part of the lifecycle library: they add nothing to the others)
+
+// slashAfterRefundRun: the owner disables the binding and takes the deposit back while a request is still pending;
+// the request then times out against a binding without deposit.
+func slashAfterRefundRun(o []Oracle, mon MonFlags) RunSpec {
+	return RunSpec{Name: "slash-after-refund", Sc: scBind(defaultParams(), []Action{actBind("a", "P1", "O1", 10, "p1", 1), actDisable("a", "P1", "O1"), actRefund("a", "P1", "O1")},
+		[]Template{tSlash3}, []string{"bad"}, 8, 5, 2), Oracles: o, Mon: mon}
+}
+
+// priceFractionsRun: discounted prices 2.8 (4 x 0.7) and 1.5 (5 x 0.3), a published price of 1.5 (stored as 1).
+var tRep2c10 = Template{Name: "rep2c10", Consumer: "C1", Service: "a", Providers: []string{"P1", "P2"}, Cap: 10, Timeout: 1, Repeated: true, Freq: 1, Total: 2}
+
+func priceFractionsRun(o []Oracle, mon MonFlags, d, b, m int) RunSpec {
+	return RunSpec{Name: "price-fractions", Sc: withFunds(scPrice(paramSet("0.1", "0.001"), "p4v7", "p5v3", []Template{tRep2c10, tOne},
+		AlphaOpts{RespKinds: []string{"ok", "bad"}, BindOps: []Action{actUpdate("a", "P1", "O1", 0, "p1h", 0)}}, d, b, m), 40, 5), Oracles: o, Mon: mon}
+}
+
+// tightBalanceRun: provider P2 is priced above the context's cap after its owner's update, P1 stays within it; the
+// consumer's balance lies between the price of the real batch (P1 only) and the sum over all listed providers.
+var tTight = Template{Name: "tight", Consumer: "C1", Service: "a", Providers: []string{"P1", "P2"}, Cap: 2, Timeout: 1, Repeated: true, Freq: 1, Total: 2}
+
+func tightBalanceRun(o []Oracle, d, b, m int) RunSpec {
+	return RunSpec{Name: "provider-above-cap+tight-balance", Sc: withFunds(scPrice(defaultParams(), "p2", "p1", []Template{tTight},
+		AlphaOpts{RespKinds: []string{"ok"}, BindOps: []Action{actUpdate("a", "P2", "O2", 0, "p5", 0)}}, d-1, b, m), 6, 1), Oracles: o}
 }
